@@ -1452,9 +1452,7 @@ pub fn step(cfg: &Cfg, sut: &mut Sut, m: &mut Model, pre: &Snapshot, op: Op, has
             let wo_can = cfg.ttl_ms().is_some() && (inval || m.ttl_dead(cfg, k));
             let blocked_ao = ahead_live(&post.probation) || live_evicted_in_this_step;
             let blocked_wo = ahead_live(&post.write_order);
-            let site = if same_reading {
-                "read-at-the-reading-of-invalidate_all"
-            } else if !u && ao_can && blocked_ao && (!wo_can || blocked_wo) {
+            let site = if !u && ao_can && blocked_ao && (!wo_can || blocked_wo) {
                 // (the access-order queue is not sorted by last_accessed when a read was
                 // applied before its entry's admission: known finding)
                 "behind-live-entry-in-purge-queue"
@@ -1462,6 +1460,10 @@ pub fn step(cfg: &Cfg, sut: &mut Sut, m: &mut Model, pre: &Snapshot, op: Op, has
                 // the write-order queue IS sorted by last_modified in every sequential
                 // history of the unchanged code: not a known site
                 "behind-live-entry-in-write-order-queue"
+            } else if same_reading {
+                // (repaired by the fix commit for finding 9(a); reported again should it return:
+                // the entry is at the front of its queue, or nothing live is ahead of it)
+                "read-at-the-reading-of-invalidate_all"
             } else {
                 "other"
             };
